@@ -505,7 +505,7 @@ def in_model_domain(case):
 def correspondence(ctx):
     rng = ctx.rng
     pool = ['utf-8', 'utf-8', 'latin-1', 'ascii']
-    n = 6000 if ctx.quick else 60000
+    n = 40000 if ctx.quick else 400000
     cases = list(fixed_cases())
     for _ in range(n):
         cases.append(gen_case(rng, gen_model_name, pool, ascii_text=rng.random() < 0.5))
@@ -516,6 +516,7 @@ def correspondence(ctx):
         ctx.evaluations += 1
         impl, _ = call_impl(case)
         ctx.count('corr/%s/%s' % (case['fn'], case['vk']))
+        ctx.count('corr-branch/' + branch_of(case))
         ctx.count('corr-out/' + (impl if impl.startswith('err:') else impl.split(':')[0]))
         v = case_value(case) if case['vk'] != 'o' else None
         passthrough = case['fn'] == 'safe_decode' and case['vk'] == 's'
@@ -558,9 +559,36 @@ def check_slug_output(out):
     return None
 
 
-def oracle(case, rng=None):
+def branch_of(case):
+    """Which part of the property a case exercises (for the input-distribution histogram)."""
+    fn, vk = case['fn'], case['vk']
+    if vk == 'o':
+        return 'other-type'
+    v = case_value(case)
+    resolved = case['incoming'] or (stdin_enc(case['stdin']) or case['default'])
+    src = 'explicit' if case['incoming'] else ('stdin' if stdin_enc(case['stdin']) else 'default')
+    if vk == 's':
+        return {'safe_decode': 'str-passthrough', 'safe_encode': 'str-encode', 'to_utf8': 'str-utf8',
+                'to_slug': 'slug-ascii-text' if v.isascii() else 'slug-unicode-text'}[fn]
+    if fn == 'to_utf8':
+        return 'bytes-identity'
+    if fn == 'safe_encode' and (not v or resolved.lower() == case['encoding'].lower()):
+        return 'bytes-untouched/' + ('empty' if not v else 'same-name')
+    try:
+        v.decode(resolved, case['errors'])
+        how = 'codec-ok'
+    except UnicodeDecodeError:
+        how = 'utf8-fallback'
+    except LookupError:
+        how = 'unknown-codec'
+    pre = {'safe_decode': 'bytes-decode', 'safe_encode': 'bytes-transcode', 'to_slug': 'slug-bytes'}[fn]
+    return '%s/%s/incoming-%s' % (pre, how, src)
+
+
+def oracle(case, note=None):
     """First way the property fails on this case (a string), or None."""
     from oslo_utils import encodeutils, strutils
+    note = note or (lambda k: None)
     fn, vk = case['fn'], case['vk']
     v = case_value(case)
     errors = case['errors']
@@ -598,7 +626,12 @@ def oracle(case, rng=None):
                 return 'safe_encode(str, encoding=%r, errors=%r) gave %s, the codec gives %r' % (enc, errors, got, want[1])
             # round trip, when the codec itself represents the text
             strict = outcome(lambda: str(v).encode(enc, 'strict'))
-            if strict[0] == 'ok' and strict[1] == raw and outcome(lambda: bytes(raw).decode(enc))[1] == v:
+            if strict[0] != 'ok' or strict[1] != raw:
+                note('roundtrip/not-representable')
+            elif outcome(lambda: bytes(raw).decode(enc))[1] != v:
+                note('roundtrip/codec-itself-unfaithful')       # e.g. shift_jis maps U+00A5 to 0x5C
+            else:
+                note('roundtrip/checked')
                 for enc2 in (enc, enc.upper(), enc.lower(), enc.swapcase()):
                     for pol2 in POLICIES:
                         with locale(case['stdin'], case['default']):
@@ -628,6 +661,11 @@ def oracle(case, rng=None):
                 return None if got == 'err:' + want[1] else 'to_slug(bytes) gave %s, expected %s' % (got, want[1])
         if got.startswith('err:'):
             return 'to_slug raised %s on text input' % got[4:]
+        if vk == 's':
+            # what the theorems assume about the front end (a parameter of the model)
+            f = front_end(v)
+            if not f.isascii() or (v.isascii() and f != v):
+                return 'assumption: the NFKD/ASCII-ignore front end maps %r to %r' % (v, f)
         why = check_slug_output(raw)
         if why:
             return why
@@ -663,7 +701,7 @@ def shrink_case(case):
 def search(ctx, seeds, full=False):
     rng = ctx.rng
     pool = ['utf-8', 'utf-8', 'latin-1', 'ascii', 'utf-16', 'cp1252', 'shift_jis'] + EXTRA_CODECS
-    n = (40000 if full else 5000) if ctx.quick else (300000 if full else 60000)
+    n = (100000 if full else 40000) if ctx.quick else (600000 if full else 400000)
     todo = [s for s in seeds[:300] if isinstance(s, dict) and 'fn' in s]
     todo += list(fixed_cases())
 
@@ -679,7 +717,8 @@ def search(ctx, seeds, full=False):
     for case in itertools.chain(todo, gen()):
         ctx.evaluations += 1
         ctx.count('search/%s/%s' % (case['fn'], case['vk']))
-        why = oracle(case)
+        ctx.count('search-branch/' + branch_of(case).split('/incoming')[0])
+        why = oracle(case, lambda k: ctx.count('search-' + k))
         if why:
             kind = case['fn'] + ': ' + re.split(r'[(:]| gave| output| is not| raised', why)[0][:40]
             if kind in kinds:
